@@ -222,10 +222,16 @@ func (m *minimizer) kindOf(q *query, ordered bool, want string) string {
 	}
 	m.runs++
 	m.w.handler.InvalidateCaches() // first execution must be cold
-	c := map[string]int64{}
-	qq := *q
-	qq.Ordered = ordered
-	k := m.w.judgeCounted(&qq, c).Kind
+	var k string
+	if want != "" && !strings.Contains(want, "warm") && !strings.Contains(want, "cold") {
+		// candidates of a class that does not depend on the cache state are judged on the cold execution
+		// only; the final minimal form is judged in full (twice) before it is reported
+		k, _ = compare(m.w.askOracle(sqlText, q.Hdr), m.w.askArc(sqlText, q.Hdr), ordered)
+	} else {
+		qq := *q
+		qq.Ordered = ordered
+		k = m.w.judgeCounted(&qq, map[string]int64{}).Kind
+	}
 	m.memo[key] = k
 	return k
 }
@@ -370,6 +376,24 @@ func (m *minimizer) reduce(q *query, kind string) *query {
 			}
 		}
 	}
+	// a CTE name other than c: rename it everywhere (definition, references, column qualifiers)
+	for i := 1; i < len(cur.Toks); i++ {
+		prev := strings.ToUpper(cur.Toks[i-1])
+		name := strings.ToLower(strings.Trim(cur.Toks[i], `"`))
+		if (prev != "WITH" && prev != "RECURSIVE") || name == "c" || name == "recursive" || name == "cpu" || name == "mem" {
+			continue
+		}
+		c := cur.clone()
+		for j, t := range c.Toks {
+			switch lt := strings.ToLower(strings.Trim(t, `"`)); {
+			case lt == name:
+				c.Toks[j] = "c"
+			case strings.HasPrefix(strings.ToLower(t), name+"."):
+				c.Toks[j] = "c" + t[len(name):]
+			}
+		}
+		try(c)
+	}
 	for i := 0; i < len(cur.Toks); i++ {
 		for _, s := range simpler(cur.Toks, i) {
 			c := cur.clone()
@@ -436,8 +460,8 @@ func (m *minimizer) minimize(q *query, kind string) *query {
 	return cur
 }
 
-// subsumes: every token of the minimal form occurs in q in order (a non-default gap of the minimal form must
-// occur with it), under the same header condition.
+// subsumes: every token of the minimal form occurs in q in order (where the minimal form has a non-default gap,
+// q has a non-default gap too), under the same header condition.
 func subsumes(min, q *query) bool {
 	if min.Hdr != "" && min.Hdr != q.Hdr {
 		return false
@@ -448,8 +472,8 @@ func subsumes(min, q *query) bool {
 		if canonTok(q.Toks[i]) != canonTok(min.Toks[j]) {
 			continue
 		}
-		if j > 0 && min.Gaps[j] != def[j] && q.Gaps[i] != min.Gaps[j] {
-			continue
+		if j > 0 && min.Gaps[j] != def[j] && (i == 0 || q.Gaps[i] == defaultGap(q.Glue[i])) {
+			continue // the minimal form needs a non-default gap here; q has the default one
 		}
 		j++
 	}
